@@ -99,15 +99,36 @@ func SameValue(v, want ssa.Value) bool {
 		return true
 	}
 	if p, ok := v.(*ssa.Phi); ok {
-		for _, e := range p.Edges {
-			if e == p {
-				continue
-			}
-			if !SameValue(e, want) {
-				return false
-			}
-		}
-		return len(p.Edges) > 0
+		return samePhi(p, want, map[*ssa.Phi]bool{})
 	}
 	return false
+}
+
+// samePhi: every operand of the phi is `want`, the phi itself (loop-carried), or a nil constant (the value a
+// multi-result helper hands back on its error path — never used there, the error is tested first).
+func samePhi(p *ssa.Phi, want ssa.Value, seen map[*ssa.Phi]bool) bool {
+	if seen[p] {
+		return true
+	}
+	seen[p] = true
+	n := 0
+	for _, e := range p.Edges {
+		e = Strip(e)
+		if e == ssa.Value(p) {
+			continue
+		}
+		if IsNilConst(e) {
+			continue
+		}
+		if e == want {
+			n++
+			continue
+		}
+		if q, ok := e.(*ssa.Phi); ok && samePhi(q, want, seen) {
+			n++
+			continue
+		}
+		return false
+	}
+	return n > 0
 }
